@@ -100,6 +100,9 @@ where
         + for<'a> std::iter::Product<&'a Sh::N>
         + num_traits::FloatConst,
 {
+    if kind.starts_with("prog;") {
+        return cases::run_prog::<F, Sh>(kind, pres);
+    }
     match kind {
         "pred" => cases::run_pred::<F, Sh>(pres),
         _ => cases::run_kind::<F, Sh>(kind, pres),
@@ -161,4 +164,14 @@ pub fn dispatch_f64(spec: &Spec) -> CaseOut {
 }
 pub fn dispatch_f32(spec: &Spec) -> CaseOut {
     dispatch::<f32>(spec)
+}
+
+fn nderiv_g<F: Fl, Sh: Shape<F>>() -> usize {
+    <Sh::N as num_dual::DualNum<F>>::NDERIV
+}
+pub fn nderivs() -> Vec<(String, usize)> {
+    SHAPES
+        .iter()
+        .map(|s| (s.to_string(), with_shape!(*s, f64, nderiv_g, ())))
+        .collect()
 }
